@@ -193,9 +193,9 @@ func reuseKinds() []reuseKind {
 func checkC16(c *Check) {
 	c.Rule = "TLC (Reuse.tla; invariant FreshAtStart) enumerates every history of operation classes (valid, second valid with markers, failure in the middle of nested containers / an array, dangling forward reference, unsupported type, I/O fault) up to the length bound; each history is run on ONE real instance of every kind (CBE/CTE marshaler, unmarshaler, decoder, universal decoder, CBE/CTE encoder behind rules, validator) and every operation also on a fresh instance: output, abstract result and error-or-not must be equal call by call, and no call may hang. non-trivial = history contains a failing operation followed by another operation; distinct = (instance kind, history)"
 	c.Assumptions = []string{"harness abs", "TLC", "operation classes of Reuse.tla are represented by one concrete input each"}
-	n := 3
+	n := 4
 	if c.Tier == "thorough" {
-		n = 4
+		n = 5
 	}
 	params := paramsModuleExt("Integers", c.AllOpenDevs(), "")
 	cfgText := fmt.Sprintf("INIT Init\nNEXT Next\nINVARIANT Emit\nCHECK_DEADLOCK FALSE\nCONSTANTS\n Ops = {\"valid\", \"valid2\", \"fail-mid\", \"dangling-ref\", \"unsupported\", \"io-fault\"}\n MaxLen = %d\n", n)
